@@ -15,8 +15,9 @@ _CACHE: Dict[int, dict] = {}
 
 
 def loop_verdicts(repo) -> Dict[str, List[str]]:
-    if id(repo) in _CACHE:
-        return _CACHE[id(repo)]
+    _cache = repo.__dict__.setdefault("_pvs_trace_cache", {})
+    if "loop_verdicts" in _cache:
+        return _cache["loop_verdicts"]
     V: Dict[str, List[str]] = {k: [] for k in ("label_content", "label_content_resume", "stop", "final_once", "save_flag", "cursor", "clear",
                                                  "first_frame_records", "cancel", "clock", "fresh_data", "update_args", "errors")}
     traces = stage_traces(repo)
@@ -129,14 +130,14 @@ def loop_verdicts(repo) -> Dict[str, List[str]]:
     if n_saves < 100:
         raise AnalysisError(f"only {n_saves} frame saves in the traces of the simulation loop")
     V["_scenarios"] = [str(len(traces))]
-    _CACHE[id(repo)] = V
+    _cache["loop_verdicts"] = V
     return V
 
 
 def run_verdicts(repo) -> Dict[str, List[str]]:
-    key = ("run", id(repo))
-    if key in _CACHE:
-        return _CACHE[key]
+    _cache = repo.__dict__.setdefault("_pvs_trace_cache", {})
+    if "run_verdicts" in _cache:
+        return _cache["run_verdicts"]
     V: Dict[str, List[str]] = {k: [] for k in ("thermal_unsaved", "clock_reset", "buffer_reset", "result", "errors")}
     for t in run_traces(repo):
         sc = t.scenario
@@ -186,5 +187,5 @@ def run_verdicts(repo) -> Dict[str, List[str]]:
             else:
                 if t.outcome[1] is not True:
                     V["result"].append(f"[{tag}] cancelled during the recorded stage: run() returns {t.outcome[1]!r}; the partial solution is lost")
-    _CACHE[key] = V
+    _cache["run_verdicts"] = V
     return V
